@@ -318,6 +318,27 @@ PROPS = {
         "assumptions": ["clients use as parents only nil, ids they were given by the server, or ids the store has never seen (a client cannot guess an unacknowledged id)",
                         "no cleanup runs here (C10) and no faults (C11)"],
     },
+    "C10": {
+        "module": "TcVerif.Props.C10",
+        "theorems": ["Tc.C10_retained_suffix_retrievable", "Tc.C10_served_and_acked", "Tc.C10_only_covered_versions_retired",
+                     "Tc.C10_trace_reachable", "Cl.check_sound", "Cl.inv_step_easy"],
+        "leanchecker_modules": ["TcVerif.Proofs.CleanupModel", "TcVerif.Proofs.CleanupLemmas", "TcVerif.Proofs.CleanupInv", "TcVerif.Proofs.CleanupStep", "TcVerif.Proofs.CleanupCheck"],
+        "runs": [
+            {"family": "cleanconc", "flags": [], "quick": {"cases": 120, "max_len": 120}, "thorough": {"cases": 4000, "max_len": 200}},
+        ],
+        "judge_preds": ["retained", "walk", "acked", "onechild", "served", "noerr"],
+        "nontrivial": lambda imp, ops: any(" del v-" in l or " del s-" in l for l in ops if "CLEAN" not in l.split(" :: ")[0]) and any("BEGIN" in l and "CLEAN" in l for l in ops),
+        "rule": "as C09 (2-4 real CloudServer clients, random single-request schedules) with add_snapshot of acknowledged versions, explicit cleanup runs (hook) started at random "
+                "moments on any client and interleaved request by request with everything else, and the store's clock moved so that cases hold versions both older and younger "
+                "than the retention age; every request, including every single deletion a cleanup issues, is checked by Cl.check (proved sound w.r.t. the machine with "
+                "cleanup), return values against the ghost state, the final store against the machine's; the Lean judge checks on the final store that a stored snapshot of a "
+                "chain version with all later versions present exists (or, if no snapshot was ever stored, the whole chain), and a fresh client of the real server must be able "
+                "to walk from get_snapshot (or nil) to latest; non-trivial = a cleanup ran and deleted something; distinct by SHA-1",
+        "trusted_base": TB_COMMON + ["the in-memory object store hook (as C09) incl. its creation-time clock; the explicit cleanup entry point calls the same CloudServer::cleanup that "
+                                     "add_version calls at random"],
+        "assumptions": ["snapshots are stored only for versions the server acknowledged (what Replica::sync does)",
+                        "'older than the retention age' is abstracted: the machine allows retiring any version at or before the retained snapshot"],
+    },
     "C11": {
         "module": "TcVerif.Props.C11",
         "theorems": ["Tc.C11_interrupted_add_all_or_nothing", "Tc.C11_interrupted_add_respects_parent", "Tc.C11_event_chainOk",
